@@ -147,7 +147,7 @@ class ReaderSuite(Suite):
         files = self.build_files(case)
         out = {"open": None, "reqs": []}
         try:
-            v = self.open_impl(case, files)
+            v = keep_alive(self.open_impl(case, files))
         except Exception as e:  # noqa: BLE001
             out["open"] = {"outcome": "exc", "exc": type(e).__name__, "msg": str(e)[:200]}
             return out
@@ -319,7 +319,18 @@ def gen_requests(rng, size, unit, n=6, sector=None, raw_align=1, max_bytes=4_000
     return reqs
 
 
-def with_twins(cases, rng, every=12):
+_ALIVE = []
+
+
+def keep_alive(obj, n=2):
+    """worker side: the last n reader objects stay referenced, so that a reader opened next finds its predecessors alive
+    (whatever is shared through weak references, or keyed by identifiers that two images can have in common)"""
+    _ALIVE.append(obj)
+    del _ALIVE[:-n]
+    return obj
+
+
+def with_twins(cases, rng, every=12, relaid=None):
     """after every few images, the same image again with other content (same layout, same table entries, another salt):
     two objects alive in one worker process whose tables and offsets coincide must not see each other's data — whatever a
     reader memoises per block number, file offset or table identity"""
@@ -332,6 +343,10 @@ def with_twins(cases, rng, every=12):
             t["salt"] = (c["salt"] ^ 0x2B5A5A5) & ((1 << 30) - 1)
             out.append(t)
             out.append(copy.deepcopy(c))          # ... and the first one once more, after its twin
+            if relaid is not None:
+                r = relaid(copy.deepcopy(c))      # ... and the same image laid out differently (same header identifiers and
+                if r is not None:                 # counts, another block map: a defragmented copy)
+                    out.append(r)
     return out
 
 
